@@ -330,3 +330,344 @@ def _reuse_c29():
 
 
 _reuse_c29()
+
+
+# ---------------------------------------------------------------------------------------------
+# ClientTLSLayer: tls_clienthello hook sets ignore_connection => the buffered first flight is replayed untouched to a raw
+# relay (no flow, no hook), TLS is never started, later data passes through
+
+CT = "mitmproxy.proxy.layers.tls:ClientTLSLayer"
+
+
+class Hello19b:
+    """parsed ClientHello stand-in (sni / alpn_protocols are what the layer reads)"""
+
+
+@scenario("client_tls.ignore_connection_passthrough", functions=[CT + ".receive_handshake_data", "mitmproxy.proxy.tunnel:TunnelLayer._handle_event",
+                                                                 "mitmproxy.proxy.tunnel:TunnelLayer.event_to_child", "mitmproxy.proxy.tunnel:TunnelLayer._handshake_finished"])
+def s_tls_passthrough(vc):
+    from mitmproxy.proxy.tunnel import TunnelState
+    parse = vc.case("parse_client_hello", ["hello", "incomplete", "error"])
+    ignore = vc.case("addon_sets_ignore_connection", [True, False]) if parse == "hello" else False
+    with_server_tls = vc.case("below_server_tls_layer", [True, False])
+    client = mk_client(vc, tls=True)
+    server = mk_server(vc)
+    ctx = mk_context(vc, client, server, mk_options(vc))
+    buffered, data = vc.sym_bytes("buffered"), vc.sym_bytes("data")
+    common = dict(debug=None, _paused=None, _paused_event_queue=None, _event_queue=vc.list([]), command_to_reply_to=None, tunnel_state=TunnelState.ESTABLISHING)
+    child0 = vc.new(LNL, context=ctx, layer=None, events=vc.list([]), _ask_on_start=False, _handle=None, debug=None, _paused=None, _paused_event_queue=None)
+    lyr = vc.new(CT, context=ctx, conn=client, tunnel_connection=client, child_layer=child0, recv_buffer=bytearray(buffered) if vc.mode == "native" else buffered, server_tls_available=with_server_tls,
+                 tls=None, **common)
+    parent = vc.new("mitmproxy.proxy.layers.tls:ServerTLSLayer" if with_server_tls else "mitmproxy.proxy.layers.modes:HttpProxy", context=ctx, **(
+        dict(conn=server, tunnel_connection=server, child_layer=lyr, tls=None, wait_for_clienthello=True, **common) if with_server_tls else dict(debug=None, _paused=None, _paused_event_queue=None)))
+    if vc.mode == "sym":
+        ctx.layers.items.extend([parent, lyr])
+    else:
+        ctx.layers.extend([parent, lyr])
+    hello = vc.new("props.C19:Hello19b", sni=vc.sym_str("sni"), alpn_protocols=vc.list([b"h2"]))
+
+    def parse_summary(v, buf):
+        if parse == "error":
+            _raise(v, ValueError)
+        return hello if parse == "hello" else v.lift(None)
+
+    vc.summary("mitmproxy.proxy.layers.tls:parse_client_hello", parse_summary)
+    got = []
+
+    def child(v, self_, ev):
+        got.append((self_, ev))
+        return v.gen([v.ghost("child_event", self_, ev)])
+
+    vc.summary("mitmproxy.proxy.layer:Layer.handle_event", child)
+    vc.summary(LNL + ".handle_event", child)
+    started_tls = []
+    vc.summary("mitmproxy.proxy.layers.tls:TLSLayer.start_tls", lambda v, self_: (started_tls.append(self_), v.gen([]))[1])
+    vc.summary(CT + ".start_server_tls", lambda v, self_: v.gen([], None))
+    # the TLS engine proper (OpenSSL BIO): only reached when the connection is intercepted
+    vc.summary("mitmproxy.proxy.layers.tls:TLSLayer.receive_handshake_data", lambda v, self_, d: (started_tls.append("handshake"), v.gen([], (False, None)))[1])
+
+    def on_yield(cmd):
+        if is_cmd(cmd, "TlsClienthelloHook"):
+            cmd.data.ignore_connection = ignore
+
+    ev = vc.new("mitmproxy.proxy.events:DataReceived", connection=client, data=data)
+    out = vc.call("mitmproxy.proxy.tunnel:TunnelLayer._handle_event", lyr, ev, on_yield=on_yield)
+    vc.ensure("total", out.ok)
+    if not out.ok:
+        if __import__("os").environ.get("C19_DEBUG"):
+            print("RAISED", out.raised, getattr(out.raised, "fields", None))
+        return
+    cmds = [c for c in out.trace if not isinstance(c, (STuple, tuple))]
+    kinds = trace_kinds(cmds)
+    if parse == "incomplete":
+        vc.ensure("incomplete.silent_and_buffered", kinds == [] and got == [] and lyr.recv_buffer == buffered + data)
+        return
+    if parse == "error":
+        vc.ensure("unparsable.no_data_forwarded", got == [] or all(not isa(e, _dr()) for _, e in got))
+        return
+    vc.ensure("hook_once", kinds.count("TlsClienthelloHook") == 1)
+    if not ignore:
+        vc.ensure("intercepted.tls_started_not_relayed", len(started_tls) == 2 and started_tls[1] == "handshake" and not any(isa(e, _dr()) for _, e in got))
+        return
+    from mitmproxy.proxy.layers import tcp
+    ch = lyr.child_layer
+    vc.ensure("ignored.child_is_raw_relay_without_flow", isa(ch, tcp.TCPLayer) and isnone(ch.flow))
+    vc.ensure("ignored.tls_never_started", started_tls == [])
+    data_events = [(l, e) for l, e in got if isa(e, _dr())]
+    vc.ensure("ignored.first_flight_replayed_once", len(data_events) == 1)
+    if len(data_events) == 1:
+        l, e = data_events[0]
+        vc.ensure("ignored.replayed_to_the_raw_relay", l is ch)
+        vc.ensure("ignored.replayed_bytes_untouched_in_order", And(e.data == buffered + data, e.connection is client))
+    vc.ensure("ignored.buffer_cleared", len_(lyr.recv_buffer) == 0)
+    vc.ensure("ignored.no_commands_besides_hook", kinds == ["TlsClienthelloHook"])
+    # the TLS layers are detached from the real connections: later events of the client/server pass straight through
+    vc.ensure("ignored.client_tls_layer_detached", lyr.conn is not client and lyr.tunnel_connection is not client)
+    if with_server_tls:
+        vc.ensure("ignored.server_tls_layer_detached", parent.conn is not server and parent.tunnel_connection is not server)
+
+
+def _dr():
+    from mitmproxy.proxy import events
+    return events.DataReceived
+
+
+# =============================================================================================
+# T2 (bounded)
+
+def ref_host(head: bytes):
+    """Reference reader (RFC 9112 §2.1, §3, §5): for a *complete* CRLF-delimited request head returns the value of the first
+    Host field (OWS stripped, obs-fold joined), or None when there is none.  Written from the RFC, not from the code."""
+    end = head.find(b"\r\n\r\n")
+    assert end >= 0
+    lines = head[:end].split(b"\r\n")
+    fields = []
+    for l in lines[1:]:
+        if l[:1] in (b" ", b"\t") and fields:
+            fields[-1] = (fields[-1][0], fields[-1][1] + b" " + l.strip(b" \t"))
+            continue
+        name, sep, value = l.partition(b":")
+        if not sep:
+            continue
+        fields.append((name, value.strip(b" \t")))
+    for name, value in fields:
+        if name.lower() == b"host":
+            return value.decode("utf-8", "surrogateescape") or None
+    return None
+
+
+def _heads():
+    """(label, head bytes, class) — class: 'plain' expected to equal the reference; others name a recorded finding class or 'gray'"""
+    out = []
+    hosts = [b"example.com", b"example.com:8080", b"EXAMPLE.com", b"[2001:db8::1]:443", b"10.0.0.1"]
+    for h in hosts:
+        for name in (b"Host", b"host", b"HOST", b"hOsT"):
+            for ows_l, ows_r in ((b" ", b""), (b"\t", b""), (b"  ", b" "), (b" ", b"\t "), (b"", b""), (b"", b" ")):
+                cls = "no-ows" if ows_l == b"" else "plain"
+                line = name + b":" + ows_l + h + ows_r
+                for before, after in (([], []), ([b"User-Agent: x"], []), ([], [b"Accept: */*"]), ([b"X-Host: evil.org", b"Accept: a"], [b"Connection: close"])):
+                    if name != b"Host" and (before or after) and h != hosts[0]:
+                        continue
+                    for target in (b"/", b"http://other.org/", b"*"):
+                        if target != b"/" and (h != hosts[0] or name != b"Host"):
+                            continue
+                        head = b"GET " + target + b" HTTP/1.1\r\n" + b"".join(x + b"\r\n" for x in before + [line] + after) + b"\r\n"
+                        out.append((f"{name.decode()}:{ows_l!r}{h.decode()}{ows_r!r}/{len(before)}/{len(after)}/{target.decode()}", head, cls))
+    out.append(("no host", b"GET / HTTP/1.1\r\nAccept: */*\r\n\r\n", "plain"))
+    out.append(("no headers", b"GET / HTTP/1.0\r\n\r\n", "plain"))
+    out.append(("duplicate host", b"GET / HTTP/1.1\r\nHost: first.example\r\nHost: second.example\r\n\r\n", "plain"))
+    out.append(("host in value", b"GET / HTTP/1.1\r\nX-Note: Host: evil.org\r\nHost: example.com\r\n\r\n", "plain"))
+    out.append(("host in body", b"POST / HTTP/1.1\r\nContent-Length: 21\r\n\r\n\r\nHost: evil.org\r\n\r\n", "plain"))
+    out.append(("post with host", b"POST /x HTTP/1.1\r\nHost: example.com\r\nContent-Length: 3\r\n\r\nabc", "plain"))
+    out.append(("connect", b"CONNECT example.com:443 HTTP/1.1\r\nHost: example.com:443\r\n\r\n", "plain"))
+    out.append(("obs-fold", b"GET / HTTP/1.1\r\nX-A: 1\r\n continued\r\nHost: example.com\r\n\r\n", "plain"))
+    out.append(("empty host last", b"GET / HTTP/1.1\r\nAccept: a\r\nHost:\r\n\r\n", "empty-host"))
+    out.append(("empty host then field", b"GET / HTTP/1.1\r\nHost: \r\nX-Foo: example.com\r\n\r\n", "empty-host"))
+    out.append(("empty host no space then field", b"GET / HTTP/1.1\r\nHost:\r\nX-Foo: example.com\r\n\r\n", "empty-host"))
+    out.append(("space before colon", b"GET / HTTP/1.1\r\nHost : example.com\r\n\r\n", "gray"))
+    out.append(("bare LF", b"GET / HTTP/1.1\nHost: example.com\n\n", "gray"))
+    out.append(("lowercase method", b"get / HTTP/1.1\r\nHost: example.com\r\n\r\n", "plain"))
+    return out
+
+
+def _get_host(data, data_server=b""):
+    from mitmproxy.addons import next_layer
+    from props import sansio
+    ctx = sansio.context_for()
+    try:
+        return ("value", next_layer.NextLayer._get_host_header(ctx, data, data_server))
+    except next_layer.NeedsMoreData:
+        return ("more",)
+
+
+def _client_hello(sni: str, alpn=("http/1.1",)) -> bytes:
+    """a real TLS ClientHello record produced by OpenSSL (ssl.MemoryBIO)"""
+    import ssl
+    c = ssl.SSLContext(ssl.PROTOCOL_TLS_CLIENT)
+    c.check_hostname = False
+    c.verify_mode = ssl.CERT_NONE
+    c.set_alpn_protocols(list(alpn))
+    inc, out = ssl.MemoryBIO(), ssl.MemoryBIO()
+    o = c.wrap_bio(inc, out, server_hostname=sni)
+    try:
+        o.do_handshake()
+    except ssl.SSLWantReadError:
+        pass
+    return out.read()
+
+
+def _mk(mode, ignore_hosts=(), allow_hosts=(), dst=None, **kw):
+    from mitmproxy.addons import next_layer
+    from props.addons_sansio import Proxy
+    return Proxy(mode, [next_layer.NextLayer()], transparent_dst=dst, ignore_hosts=list(ignore_hosts), allow_hosts=list(allow_hosts), connection_strategy="lazy", **kw)
+
+
+def _e2e_cases():
+    """(label, mode, preamble segments the client sends before the payload, dst for transparent, payload bytes, destination texts)"""
+    http = lambda host_line: b"GET /secret HTTP/1.1\r\n" + host_line + b"\r\nUser-Agent: t\r\n\r\n"
+    cases = []
+    cases.append(("regular CONNECT hostname, http inside", "regular", [b"CONNECT example.com:80 HTTP/1.1\r\nHost: example.com:80\r\n\r\n"], None, http(b"Host: example.com"), "example.com:80"))
+    cases.append(("regular CONNECT ip, host header names the site", "regular", [b"CONNECT 93.184.216.34:80 HTTP/1.1\r\n\r\n"], None, http(b"Host: example.com"), "example.com"))
+    cases.append(("transparent, Host header", "transparent", [], ("93.184.216.34", 80), http(b"Host: example.com"), "example.com"))
+    cases.append(("transparent, host header lower-case name", "transparent", [], ("93.184.216.34", 80), http(b"host: example.com"), "example.com"))
+    cases.append(("transparent, Host with tab", "transparent", [], ("93.184.216.34", 80), http(b"Host:\texample.com"), "example.com"))
+    cases.append(("transparent, Host without OWS", "transparent", [], ("93.184.216.34", 80), http(b"Host:example.com"), "example.com"))
+    cases.append(("transparent, ip only", "transparent", [], ("93.184.216.34", 80), http(b"Host: unrelated.org"), "93.184.216.34:80"))
+    cases.append(("reverse, target address", "reverse:http://example.com:8000", [], None, http(b"Host: whatever"), "example.com:8000"))
+    cases.append(("socks5 domain", "socks5", [b"\x05\x01\x00", b"\x05\x01\x00\x03\x0bexample.com\x00\x50"], None, http(b"Host: example.com"), "example.com:80"))
+    hello = _client_hello("example.com")
+    cases.append(("transparent TLS, SNI", "transparent", [], ("93.184.216.34", 443), hello, "example.com"))
+    cases.append(("regular CONNECT ip:443, TLS SNI", "regular", [b"CONNECT 93.184.216.34:443 HTTP/1.1\r\n\r\n"], None, hello, "example.com"))
+    return cases
+
+
+def _run_e2e(mode, pre, dst, payload_segments, rules):
+    p = _mk(mode, dst=dst, **rules)
+    for seg in pre:
+        p.feed(seg)
+    base_client = len(p.to_client())
+    ok = p.feed_segments(payload_segments)
+    return p, base_client, ok
+
+
+def bounded(tier, seed):
+    import itertools
+    b = Bounded()
+    b.rule = ("(1) NextLayer._get_host_header against an RFC 9112 reference reader on enumerated request heads (field order, name case, OWS none/space/tab/trailing, ports, IPv6, "
+              "absolute-form and asterisk targets, duplicates, obs-fold, Host-like text in other fields and in the body) and on every prefix of each head (prefix result must be NeedsMoreData or the final result); "
+              "(2) end-to-end sans-io runs of the real mode layers with the real NextLayer addon: proxy mode {regular CONNECT, transparent, reverse, SOCKS5} x destination form {address, Host header, TLS SNI} x "
+              "rule {ignore matching, ignore not matching, allow matching, allow not matching} x segmentation of the first flight {whole, every 2-split, 1-byte first segment}: "
+              "ignored => byte-exact relay both ways incl. the first flight and no HTTP/TLS hook; not ignored => intercepted; distinct = (case, rule, segmentation); non-trivial = a rule is set")
+    b.bound = "enumerated heads (~300) x all prefixes; 11 end-to-end cases x 4 rule settings x splits (quick: <= 12 splits per case)"
+    b.exhaustive = False
+    # ---- (1) host header extraction
+    for label, head, cls in _heads():
+        b.case(("host", label), nontrivial=True)
+        if cls == "gray":
+            try:
+                _get_host(head)          # totality only: the RFC leaves the outcome to the recipient
+            except Exception as e:
+                b.fail("host_header.total", {"head": head.decode("latin-1")}, f"raised {type(e).__name__}: {e}")
+            continue
+        want = ref_host(head)
+        got = _get_host(head)
+        inp = {"head": head.decode("latin-1"), "case": label}
+        if got != ("value", want):
+            suffix = {"no-ows": "[no-ows]", "empty-host": "[empty-host-value]"}.get(cls, "")
+            b.fail("host_header.equals_rfc9112_reference" + suffix, inp, f"expected {want!r}, got {got!r}")
+            continue
+        # prefixes: NeedsMoreData or the final answer (segmentation clause)
+        end = head.find(b"\r\n\r\n") + 4
+        reported = set()
+        for n in range(0, end):
+            r = _get_host(head[:n])
+            b.case(("host-prefix", label, n), nontrivial=False)
+            if r != ("more",) and r != got:
+                short = b"HTTP/" not in head[:n]
+                name = "host_header.prefix_is_undecided_or_final" + ("[before-request-line-complete]" if short else "")
+                if name not in reported:
+                    reported.add(name)
+                    b.fail(name, dict(inp, prefix_len=n, prefix=head[:n].decode("latin-1")), f"prefix gives {r!r}, whole head gives {got!r}")
+    # a server greeting before client data: HTTP host header is not consulted
+    b.case(("host", "server-first"), nontrivial=True)
+    if _get_host(b"GET / HTTP/1.1\r\nHost: example.com\r\n\r\n", b"220 hello\r\n") != ("value", None):
+        b.fail("host_header.ignored_when_server_spoke_first", {}, "")
+    # ---- (2) end to end
+    rule_sets = [("ignore.match", lambda d: dict(ignore_hosts=[_rx(d)]), True), ("ignore.nomatch", lambda d: dict(ignore_hosts=[r"nomatch\.invalid"]), False),
+                 ("allow.match", lambda d: dict(allow_hosts=[_rx(d)]), False), ("allow.nomatch", lambda d: dict(allow_hosts=[r"nomatch\.invalid"]), True)]
+    for (label, mode, pre, dst, payload, dest_text), (rname, mkrules, expect_ignored) in itertools.product(_e2e_cases(), rule_sets):
+        splits = [[payload]] + [[payload[:i], payload[i:]] for i in _cut_points(payload, tier)]
+        for segs in splits:
+            key = (label, rname, tuple(len(s) for s in segs))
+            b.case(key, nontrivial=True)
+            inp = {"case": label, "mode": mode, "rule": rname, "rules": {k: v for k, v in mkrules(dest_text).items()}, "segments": [len(s) for s in segs]}
+            try:
+                p, base_client, fed = _run_e2e(mode, pre, dst, segs, mkrules(dest_text))
+            except Exception as e:
+                import traceback
+                b.fail("e2e.total", inp, f"raised {type(e).__name__}: {e} {traceback.format_exc()[-400:]}")
+                continue
+            after_pre = _hooks_after_preamble(p, pre)          # hooks of the CONNECT / SOCKS5 preamble precede the decision
+            # "intercepted" = some flow is created for the connection's payload (HTTP, TLS or raw TCP flow hooks)
+            intercepted = any(h in FLOW_HOOKS for h in after_pre)
+            relayed = b"".join(d for _, d in p.all_server_bytes())
+            cls = _e2e_class(label, segs, payload)
+            if cls == "[first-segment-shorter-than-tls-record-header]":
+                continue        # the statement excuses "the documented minimum needed to recognise TLS"
+            if expect_ignored:
+                if intercepted:
+                    b.fail("e2e.ignored_connection_not_intercepted" + cls, inp, f"hooks after the decision: {after_pre}")
+                    continue
+                if not relayed.endswith(payload):
+                    b.fail("e2e.ignored_first_flight_relayed_untouched" + cls, inp, f"server received {relayed[-120:]!r}")
+                    continue
+                # both directions, byte-exact, also afterwards
+                more_c, more_s = bytes(range(256)), b"\x00\xffHTTP/1.1 200 OK\r\n\r\n" + bytes(range(255, -1, -1))
+                n_before = len(p.to_client())
+                p.reply(more_s)
+                p.feed(more_c)
+                if p.to_client()[n_before:] != more_s or not b"".join(d for _, d in p.all_server_bytes()).endswith(payload + more_c):
+                    b.fail("e2e.ignored_relay_is_byte_exact_both_ways" + cls, inp, "later bytes were altered, reordered or dropped")
+                if any(h in FLOW_HOOKS for h in _hooks_after_preamble(p, pre)):
+                    b.fail("e2e.ignored_connection_fires_no_flow_hooks" + cls, inp, str(_hooks_after_preamble(p, pre)))
+            else:
+                if not intercepted:
+                    b.fail("e2e.other_connections_are_intercepted" + cls, inp, f"hooks: {after_pre}; server got {relayed[-80:]!r}")
+    return b
+
+
+FLOW_HOOKS = ("requestheaders", "request", "tls_clienthello", "tls_start_client", "tls_start_server", "tcp_start", "tcp_message", "udp_start", "udp_message")
+
+
+def _rx(dest_text):
+    import re
+    return re.escape(dest_text.split(":")[0]) if not dest_text[0].isdigit() else re.escape(dest_text)
+
+
+def _cut_points(payload, tier):
+    n = len(payload)
+    if tier == "thorough":
+        return list(range(1, n))
+    pts = sorted(set([1, 2, 3, 4, 5, n // 2, n - 1] + [payload.find(b"Host") + k for k in (0, 4, 5, 6)] + [payload.find(b"\r\n") + 1, payload.find(b"\r\n") + 2]))
+    return [i for i in pts if 0 < i < n][:12]
+
+
+def _hooks_after_preamble(p, pre):
+    names = p.hooks()
+    if pre and pre[0].startswith(b"CONNECT"):
+        i = names.index("http_connected") if "http_connected" in names else (names.index("http_connect") if "http_connect" in names else -1)
+        return names[i + 1:]
+    if pre:   # socks5
+        return names
+    return names
+
+
+def _e2e_class(label, segs, payload):
+    """recorded-finding classes of the end-to-end check"""
+    if "without OWS" in label:
+        return "[no-ows]"
+    if len(segs) > 1 and payload[:1].isalpha() and b"HTTP/" not in segs[0]:
+        return "[first-segment-shorter-than-request-line]"
+    if len(segs) > 1 and payload[:1] == b"\x16" and len(segs[0]) < 6:
+        return "[first-segment-shorter-than-tls-record-header]"
+    return ""
